@@ -19,4 +19,19 @@ NarrowInitDescs == {NoDesc, FullDesc}
 \* and read-only time (the fields the look-back validity window is computed from)
 WideInitDescs == {[i \in Inst |-> [StartRec(i) EXCEPT !.reg = f[i][1], !.ro = f[i][2], !.rots = f[i][3]]] :
                      f \in [Inst -> Stamps \X BOOLEAN \X Stamps]}
+
+\* "swap" configurations: ANY combination of registration time, read-only flag / time and token alternative, so that an
+\* exchange between two instances is a real change
+SwapInitDescs == {[i \in Inst |-> [StartRec(i) EXCEPT !.reg = f[i][1], !.ro = f[i][2], !.rots = f[i][3], !.tok = f[i][4]]] :
+                     f \in [Inst -> Stamps \X BOOLEAN \X Stamps \X Toks]}
+
+\* NEGATIVE CONTROL (a deliberately wrong RingCompare): compares the COLLECTION of topology records instead of the
+\* record of every instance - single-field updates are still classified correctly, an exchange is taken for "equal but
+\* states and timestamps".  TLC must refute UnobservableFast with it (MC_neg_aggcompare.cfg).
+AggClassify(old, new) ==
+    IF DOMAIN old # DOMAIN new THEN "Different"
+    ELSE IF {Topo(old[i]) : i \in DOMAIN old} # {Topo(new[i]) : i \in DOMAIN new} THEN "Different"
+    ELSE IF \E i \in DOMAIN old : old[i].state # new[i].state \/ old[i].ts # new[i].ts
+         THEN "EqualButStatesAndTimestamps"
+    ELSE "Equal"
 =============================================================================
